@@ -5,7 +5,7 @@ use duckscript::types::runtime::Context;
 use serde_json::{json, Value};
 use std::collections::BTreeMap;
 
-const NAMES: [&str; 6] = ["a", "b", "c", "p::x", "p::y", "nope"];
+const NAMES: [&str; 11] = ["a", "b", "c", "p::x", "p::y", "nope", "p", "px", "p_q::x", "p:", "pp::x"];
 const VALS: [&str; 4] = ["1", "two", "x y", "false"];
 
 pub fn gen(r: &mut Rng) -> Value {
@@ -21,12 +21,12 @@ pub fn gen(r: &mut Rng) -> Value {
             6 => json!({"op": "is_defined", "name": r.pick(&NAMES)}),
             7 => {
                 if r.chance(1, 2) {
-                    json!({"op": "unset_all_vars", "prefix": "p::"})
+                    json!({"op": "unset_all_vars", "prefix": r.pick(&["p::", "p", "p:", "a", "pp"])})
                 } else {
                     json!({"op": "unset_all_vars"})
                 }
             }
-            8 => json!({"op": "clear_scope", "name": "p"}),
+            8 => json!({"op": "clear_scope", "name": r.pick(&["p", "p", "pp", "a"])}),
             9 | 10 => json!({"op": "push", "copy": copy}),
             _ => json!({"op": "pop", "copy": copy}),
         };
